@@ -339,7 +339,7 @@ def gen(chk, tier):
     if quick:
         ex2 = ex2[:36000]     # the fixed programs come first; bounds the run time whatever the random programs are
     else:
-        ex2 = ex2[:900000]    # same for the thorough tier (a loaded machine must still finish within the harness timeout)
+        ex2 = ex2[:300000]    # same for the thorough tier (about 1000 cases/s end to end: the tier stays near ten minutes)
     streams.append(("exhaustive-2x2", ex2))
     # (c) one schedule per (reachable model state, thread) edge incl. the disabled steps, 3 threads x <= 2 calls
     pl = [[rand_prog(rng, 2), rand_prog(rng, 2), rand_prog(rng, 2)] for _ in range(9 if quick else 300)]
@@ -406,7 +406,7 @@ def gen_wait_forced(chk, tier):
     ex2 = []
     for progs, (_, scheds) in zip(pl, enum_many(pl, "all", 450 if quick else 200000)):
         ex2 += ["c16 progs=%s sched=%s" % (prog_str(progs), s) for s in scheds]
-    ex2 = ex2[:9000] if quick else ex2[:400000]
+    ex2 = ex2[:9000] if quick else ex2[:120000]
     streams.append(("exhaustive-2x2-wait", ex2))
     # (g) one schedule per (reachable model state, thread) edge, 3 threads
     pl = list(FIXED_WAIT_3)
